@@ -60,7 +60,7 @@ class CharRule:
 class Schema:
     def __init__(s, name, rules, root, ops, n=3, alphabet='x', props=(), extract='', support='', post='', types='',
                  nonzero=(), cmp_err=True, cmp_fields=True, custom_ws=None, nchk=0, user_ctx=None, derives=None,
-                 tracer=False, allow_sentinel=False, via_public=False, expect='ok', raw_ebnf=None, note='', kani=True, twin_of=None, root_call=None):
+                 tracer=False, allow_sentinel=False, via_public=False, extern_str='', expect='ok', raw_ebnf=None, note='', kani=True, twin_of=None, root_call=None):
         s.__dict__.update(locals()); del s.__dict__['s']
 
 # ------------------------------------------------------------------------------------------------ grammar text
@@ -127,7 +127,10 @@ def ebnf(schema):
     for i, op in enumerate(OPS):
         if op in schema.ops:
             fn = 'crate::ops::' + op.lower() + ('_ctx' if schema.user_ctx else '')
-            out.append('@extern(%s -> u16)\n%s;' % (fn, op))
+            if op in schema.extern_str:
+                out.append('@extern(%s_str)\n%s;' % (fn, op))
+            else:
+                out.append('@extern(%s -> u16)\n%s;' % (fn, op))
     if schema.custom_ws is not None:
         out.append("@no_skip_ws\nWhitespace = {'%s'};" % schema.custom_ws)
     return '\n'.join(out) + '\n'
@@ -225,9 +228,14 @@ class Emit:
         if r.string is not None:
             post += 'cx.x[%d] = start as i32; cx.x[%d] = (e - start) as i32;\n' % r.string
         for c in r.checks:
-            key = 'tag(9, start, e - start)' if c[2] == 'string' else 'key'
+            key = 'tag(9, e - start, 0)' if c[2] == 'string' else 'key'
             post += 'if !cx.check(%d, %s, e) { return None; }\n' % (c[0], key)
         if r.leftrec:
+            lr_checks = ''
+            for c in r.checks:
+                # the value a check of a left-recursive rule sees is identified by how many growth steps it contains
+                lr_checks += 'let key = tag(9, (cx.f[%d].n - s0.f[%d].n) as usize, 0); if !cx.check(%d, key, e) { None } else { Some(e) }' % (c[3], c[3], c[0])
+            round_expr = '%s(cx, p)' % bodyfn if not r.checks else ('match %s(cx, p) { Some(e) => { %s } None => None }' % (bodyfn, lr_checks))
             body = ('if cx.lr_active && cx.lr_pos == p {\n'
                     '    // the recursive reference: fails while the seed is computed, then stands for the previous result\n'
                     '    return match cx.lr_best { None => { cx.fail(p); None } Some((e, s)) => { cx.restore(&s); Some(e) } };\n'
@@ -236,11 +244,11 @@ class Emit:
                     'cx.lr_active = true; cx.lr_pos = p; cx.lr_best = None;\n'
                     'let mut rounds = 0usize;\n'
                     'loop {\n    cx.restore(&s0);\n    rounds += 1; if rounds > MAXN + 3 { break; }\n'
-                    '    match %s(cx, p) {\n'
+                    '    match ROUND_EXPR {\n'
                     '        Some(e) => { let better = match cx.lr_best { None => true, Some((b, _)) => e > b }; if better { cx.lr_best = Some((e, cx.snap())); } else { break; } }\n'
                     '        None => break,\n    }\n}\n'
                     'let best = cx.lr_best;\ncx.lr_active = saved.0; cx.lr_pos = saved.1; cx.lr_best = saved.2;\n'
-                    'match best { Some((e, s)) => { cx.restore(&s); Some(e) } None => { cx.restore(&s0); None } }' % bodyfn)
+                    'match best { Some((e, s)) => { cx.restore(&s); Some(e) } None => { cx.restore(&s0); None } }').replace('ROUND_EXPR', round_expr)
             return s.fn('r_' + r.name, body)
         body = 'let start = p;\nlet nf = cx.f;\nlet e = %s(cx, p)?;\n' % bodyfn
         if any(c[2] != 'string' for c in r.checks):
